@@ -395,14 +395,10 @@ def run_fork(seed, dec, cfg):
                 finally:
                     os._exit(status)
             os.close(w)
-            buf = b""
-            while True:
-                chunk = os.read(r, 65536)
-                if not chunk:
-                    break
-                buf += chunk
-            os.close(r)
-            _pid, st_ = os.waitpid(pid, 0)
+            from esim.run import read_child
+            buf, st_, hung = read_child(r, pid, 20.0)
+            if hung:
+                raise Violation("fork_child_hung", "the forked child that continues the task hung (killed after 20 s)")
             if not (os.WIFEXITED(st_) and os.WEXITSTATUS(st_) == 0):
                 from esim.sched import HarnessError
                 raise HarnessError("forked child ended with status %r" % (st_,))
